@@ -23,6 +23,9 @@ RefIds == 1..NRefs
 
 Scalars ==
   IF Profile = "tiny" THEN {IntV("1"), StrV("a")}
+  ELSE IF Profile = "strings"
+  THEN {StrV("a"), StrV("ab"), StrV(""), StrV("42"), StrV("1.5"), StrV("-3e2"),
+        StrV("a%00b"), StrV("%80%FF"), IntV("7")}
   ELSE {Null, BoolV(TRUE), IntV("1"), IntV("1099511627776"), FltV("1.5"),
         FltV("0.1"), StrV("a"), StrV("b"), RawV("[7]")}
 
